@@ -20,6 +20,7 @@ type c10Case struct {
 	OnErr  bool     `json:"on_error_handler"`
 	Cache  bool     `json:"caching"`
 	NoGlob bool     `json:"no_global_middleware"`
+	MutNA  bool     `json:"not_allowed_handler_edits_its_slice,omitempty"`
 }
 
 func c10Gen(tier string, emit func(c10Case)) {
@@ -27,7 +28,7 @@ func c10Gen(tier string, emit func(c10Case)) {
 	if tier == "thorough" {
 		maxPrefix = 3
 	}
-	for cfg := 0; cfg < 12; cfg++ {
+	for cfg := 0; cfg < 13; cfg++ {
 		if tier == "thorough" && cfg == 7 {
 			// hook + OnError + caching: one step deeper
 			maxPrefix = 4
@@ -41,7 +42,10 @@ func c10Gen(tier string, emit func(c10Case)) {
 		}
 		var rec func(p []string)
 		rec = func(p []string) {
-			if cfg >= 8 {
+			if cfg == 12 {
+				// a custom NotAllowed handler that edits the allowed-methods slice it is handed (with caching on)
+				emit(c10Case{Prefix: append([]string(nil), p...), Cache: true, MutNA: true})
+			} else if cfg >= 8 {
 				// routers without global middleware and with custom NotFound / NotAllowed chains
 				emit(c10Case{Prefix: append([]string(nil), p...), Hook: cfg&1 != 0, Cache: cfg&2 != 0, NoGlob: true})
 			} else {
@@ -60,7 +64,7 @@ func c10Gen(tier string, emit func(c10Case)) {
 
 func c10Run(c c10Case, st *fw.Stats) []fw.Viol {
 	var vs []fw.Viol
-	cfg := kindCfg{Hook: c.Hook, OnError: c.OnErr, Cache: c.Cache, NoGlobal: c.NoGlob}
+	cfg := kindCfg{Hook: c.Hook, OnError: c.OnErr, Cache: c.Cache, NoGlobal: c.NoGlob, MutNA: c.MutNA}
 	for _, last := range kindNames {
 		st.Evals++
 		base := newKindRouter(cfg).do(last, nil)
@@ -85,7 +89,7 @@ func c10Run(c c10Case, st *fw.Stats) []fw.Viol {
 				sig = "pristine:response"
 			}
 			if len(vs) < 6 {
-				vs = append(vs, fw.Viol{Sig: sig, Msg: fmt.Sprintf("router{hook=%v onError=%v cache=%v noGlobalMiddleware=%v} history [%s] then %q: observed %s; as the first request on a fresh identical router: %s", c.Hook, c.OnErr, c.Cache, c.NoGlob, strings.Join(c.Prefix, ", "), last, got, base)})
+				vs = append(vs, fw.Viol{Sig: sig, Msg: fmt.Sprintf("router{hook=%v onError=%v cache=%v noGlobalMiddleware=%v notAllowedHandlerEditsItsSlice=%v} history [%s] then %q: observed %s; as the first request on a fresh identical router: %s", c.Hook, c.OnErr, c.Cache, c.NoGlob, c.MutNA, strings.Join(c.Prefix, ", "), last, got, base)})
 			}
 		}
 	}
@@ -98,14 +102,14 @@ func c10Run(c c10Case, st *fw.Stats) []fw.Viol {
 var c10Spec = fw.Spec[c10Case]{
 	ID:    "C10",
 	Level: "model_checking",
-	Rule: "complete enumeration: all request histories of length <=3 (quick: on 7 of the 12 router configurations, <=2 on the others; thorough 4, and 5 on the configuration with hook, OnError handler and caching) over 28 request kinds (handler stores values / records errors / aborts / sets status and writes / replaces c.Resp / replaces c.Req / calls SetHandlers / dynamic routes with params / 404 / 405 / panics (also after recording an uncommitted status) / edits the url.Values of its query / renders a view that fails half way / renders a view / hijacks the connection / re-dispatches with HandleContext / issues a nested ServeHTTP / copies the context) x {OnPanic hook} x {OnError handler} x {caching}, plus four configurations without any global middleware and with custom NotFound / NotAllowed chains; a probe installed as first global middleware snapshots Data, Params, Errors, abort state, status, length, chain length, writer and request identity at entry; " +
+	Rule: "complete enumeration: all request histories of length <=3 (quick: on 7 of the 12 router configurations, <=2 on the others; thorough 4, and 5 on the configuration with hook, OnError handler and caching) over 29 request kinds (handler stores values / records errors / aborts / sets status and writes / replaces c.Resp / replaces c.Req / calls SetHandlers / dynamic routes with params / 404 / 405 / panics (also after recording an uncommitted status) / edits the url.Values of its query / renders a view that fails half way / renders a view / hijacks the connection / re-dispatches with HandleContext / issues a nested ServeHTTP / copies the context) x {OnPanic hook} x {OnError handler} x {caching}, plus four configurations without any global middleware and with custom NotFound / NotAllowed chains, and one whose NotAllowed handler edits the allowed-methods slice it is given; a probe installed as first global middleware snapshots Data, Params, Errors, abort state, status, length, chain length, writer and request identity at entry; " +
 		"differential oracle: the last request observes exactly what it observes as first request on a fresh identical router; non-trivial = history whose last request really ran on a context used earlier in the history (pointer identity)",
 	Assume: []string{"sync.Pool is the real one here (reuse is counted, not forced); the controlled pool of C03 forces reuse deterministically"},
 	Bounds: func(tier string) map[string]any {
 		if tier == "quick" {
-			return map[string]any{"kinds": len(kindNames), "history_length": 3, "router_configs": 12}
+			return map[string]any{"kinds": len(kindNames), "history_length": 3, "router_configs": 13}
 		}
-		return map[string]any{"kinds": len(kindNames), "history_length": "4 (5 on 1 configuration)", "router_configs": 12}
+		return map[string]any{"kinds": len(kindNames), "history_length": "4 (5 on 1 configuration)", "router_configs": 13}
 	},
 	Gen: c10Gen,
 	Run: c10Run,
